@@ -63,6 +63,31 @@ func encodeVersionData(shape int, magic uint32) []byte {
 	return b
 }
 
+// encodeVersionDataBadField is version data of the right shape and length with
+// the given magic, in which one later field has a CBOR type the specification
+// does not allow there (a flag that is not a bool, a negative or textual
+// peer-sharing value).
+func encodeVersionDataBadField(shape int, magic uint32, which int) ([]byte, bool) {
+	m := cborUint(nil, 0, uint64(magic))
+	switch shape {
+	case shapeNtCNew, shapeNtNOld:
+		return append(append([]byte{0x82}, m...), []byte{0x01, 0x20}[which%2]), true // flag is a uint / a negative int
+	case shapeNtNNew:
+		b := append([]byte{0x84}, m...)
+		switch which % 4 {
+		case 0:
+			return append(b, 0x01, 0x00, 0xf4), true // diffusion flag is a uint
+		case 1:
+			return append(b, 0xf4, 0x20, 0xf4), true // peer sharing is negative
+		case 2:
+			return append(b, 0xf4, 0x61, 'x', 0xf4), true // peer sharing is text
+		default:
+			return append(b, 0xf4, 0x00, 0x01), true // query flag is a uint
+		}
+	}
+	return nil, false
+}
+
 func hsAcceptSetup(s *rt.Sim, tier string) func() {
 	schedCfg(s, true)
 	s.Cfg.MaxSteps = 40000
@@ -117,13 +142,21 @@ func hsAcceptSetup(s *rt.Sim, tier string) func() {
 		if isProposed && magic == co.magic && ((shape == shapeNtCNew && specShape(v) == shapeNtNOld) || (shape == shapeNtNOld && specShape(v) == shapeNtCNew)) {
 			wantOK = true
 		}
+		vdata := encodeVersionData(shape, magic)
+		badField := false
+		if chance("op", 1, 5) {
+			if b, ok := encodeVersionDataBadField(shape, magic, pick("op", 4)); ok {
+				vdata, badField, wantOK = b, true, false
+				rt.Hit("hsaccept.bad-field-type")
+			}
+		}
 		msg := append([]byte{0x83, 0x01}, cborUint(nil, 0, uint64(v))...)
-		msg = append(msg, encodeVersionData(shape, magic)...)
+		msg = append(msg, vdata...)
 		_ = peer.send(0, true, msg) // the specification requires handshake messages to fit one segment
 		for i := 0; i < 1200 && !ret; i++ {
 			sleep(time.Second)
 		}
-		desc := fmt.Sprintf("initiator %+v proposed %v; responder accepted version %d with data shape %d magic %d", co, versionKeys(proposed), v, shape, magic)
+		desc := fmt.Sprintf("initiator %+v proposed %v; responder accepted version %d with data shape %d magic %d (field of a wrong CBOR type: %v, data % x)", co, versionKeys(proposed), v, shape, magic, badField, vdata)
 		if wantOK {
 			rt.Hit("hsaccept.valid")
 		} else {
@@ -147,6 +180,8 @@ func hsAcceptSetup(s *rt.Sim, tier string) func() {
 				cls = "C19/unproposed-version-accepted"
 			case magic != co.magic:
 				cls = "C19/foreign-magic-accepted"
+			case badField:
+				cls = "C19/invalid-version-data-accepted"
 			}
 			got, _ := conn.ProtocolVersion()
 			rt.Violate(cls, "%s; NewConnection succeeded with version %d", desc, got)
